@@ -12,7 +12,11 @@ CloneTargets == {TModel} \cup {TUnits(i) : i \in DOMAIN M.units} \cup {TComp(i) 
                 \cup UNION {{TVar(i, j) : j \in DOMAIN M.comps[i].vars} \cup {TReset(i, j) : j \in DOMAIN M.comps[i].resets} : i \in DOMAIN M.comps}
                 \cup {TImport(i) : i \in {k \in DOMAIN M.comps : M.comps[k].imp # NoneS}}
 Emit == IF What = "equality"
-        THEN \A mut \in Mutations(M) : EmitScenario([fv |-> fv, am |-> M, mut |-> mut])
+        THEN /\ \A mut \in Mutations(M) : EmitScenario([fv |-> fv, am |-> M, mut |-> mut])
+             \* two identical sibling components on both sides, one of them then changed on one side: children are matched as a bag
+             /\ \A i \in {k \in DOMAIN M.comps : M.comps[k].imp = NoneS /\ M.comps[k].name \in {"d1", "c2"}} :
+                    \A mut \in {x \in SetMutations(M) : x.t.k \in {"comp", "var"} /\ x.t.c = i - 1} :
+                        EmitScenario([fv |-> fv, am |-> M, pre |-> [op |-> "dupSibling", t |-> TComp(i)], mut |-> mut])
         ELSE /\ \A t \in CloneTargets : EmitScenario([fv |-> fv, am |-> M, t |-> t, mut |-> "none", side |-> "none"])
              \* a reset whose variable / test variable belongs to another component (only the API can build this; the names are
              \* the same, so the content of the clone is still that of the abstract model): model and component clones
